@@ -9,15 +9,16 @@
                      (a special URL never gets its host from Host::parse_opaque: frame_step3), and the scheme class can
                      only go from special to special.
    GHistF          : histories of gated steps and sessions from a start record; hc_history.
-   NOT proved here: HC for parse results (the start records) - it needs the position of the host text in the result of
-   every parser arm (after "//": Display of the host parse_host returned; relative / file arms: the host text of the
-   base); see the theorem notes. *)
+   hc_parse        : HC for every parse result, from HC of the base (C05_HostParse.parse_url_host: the host text of a
+                     parse result is the Display of a host the parser of the scheme class returned, or the host text of
+                     a base of the same scheme class).
+   creachF_hc      : HC for every record of CReachF. *)
 From RU Require Import Base.Prelude Base.Utf8 Model.AsciiSet Gen.Tables Model.PercentEncoding
   Model.HostT Model.UrlRecord Model.Parser Model.Setters Model.WF Model.FormUrlencoded Model.QueryPairs
   Proofs.ListN Proofs.C03_WF Proofs.C05_Enc Proofs.C05_Parser Proofs.C05_Setters Proofs.C05_History
   Proofs.C05_Comp Proofs.C05_CompSteps Proofs.C06_Host Proofs.C06_Main Proofs.C03_ReachParts
   Proofs.C05_CompSteps2 Proofs.C05_CompReach Proofs.C05_CompSteps3 Proofs.C05_Alphabet Proofs.C05_AuthOfs
-  Proofs.C05_HostText Proofs.C15_Ser Proofs.C05_Qpm Proofs.C05_ReachF.
+  Proofs.C05_HostText Proofs.C15_Ser Proofs.C05_Qpm Proofs.C05_ReachF Proofs.C05_BaseOk Proofs.C05_HostParse Proofs.C06_Suffix.
 
 Section HostClause.
 Variable dbg : bool.
@@ -76,6 +77,38 @@ Proof.
   - apply IH.
     + exact (finv_qpm dbg u ops u1 F Hops H).
     + destruct F as (K & _ & O & _). exact (hc_qpm u ops u1 K O Hops H Hc).
+Qed.
+
+(* ---------- parse results ---------- *)
+Theorem hc_parse ovr base input u : wf_b u = true ->
+  match base with Some b => wf_b b = true /\ host_text_ok b /\ bk b /\ HC b | None => True end ->
+  parse_url dbg hp hpo hd ovr base input = POk u -> HC u.
+Proof.
+  intros W Hb Hp Hs s Hstr.
+  rewrite (host_str_ht u W) in Hstr. destruct (has_host u) eqn:Ehh; [|discriminate]. inversion Hstr; subst s. clear Hstr.
+  assert (match base with Some b => wf_b b = true /\ host_text_ok b /\ bk b | None => True end) as Hb3
+    by (destruct base as [b|]; [tauto | exact I]).
+  destruct (parse_url_host dbg hp hpo hd ovr HW base input u Hb3 Hp) as [A|[(h & Hne & Ho & Eh)|(b & Eb & Hn & Eh & Esp)]].
+  - unfold has_host in Ehh. rewrite A in Ehh. discriminate.
+  - rewrite Eh. rewrite Hs in Ho. destruct Ho as [s0 E0]. exact (proj1 HQ s0 h E0 Hne).
+  - rewrite Eb in Hb. destruct Hb as (Wb & _ & _ & Hcb). rewrite Eh. apply Hcb; [rewrite <- Esp; exact Hs|].
+    rewrite (host_str_ht b Wb). unfold has_host. destruct (hosti b); [contradiction | reflexivity ..].
+Qed.
+
+(* ---------- every record of CReachF ---------- *)
+Theorem creachF_hc u : CReachF dbg hp hpo hd u -> HC u.
+Proof.
+  intros R. assert (FInv dbg u /\ HC u) as [_ X]; [|exact X].
+  induction R as [ovr input u Hp | ovr b input u Rb IHb Hp | u o u' R IH G H | u ops u' R IH Hops H].
+  - pose proof (finv_parse dbg hp hpo hd HW HOK ovr None input u I Hp) as F. split; [exact F|].
+    destruct F as ([[W _] _] & _). exact (hc_parse ovr None input u W I Hp).
+  - destruct IHb as [Fb Hcb]. pose proof (finv_parse dbg hp hpo hd HW HOK ovr (Some b) input u Fb Hp) as F. split; [exact F|].
+    destruct F as ([[W _] _] & _). apply (hc_parse ovr (Some b) input u W); [|exact Hp].
+    destruct Fb as ([[Wb HTb] _] & Ab & _). split; [exact Wb|]. split; [exact HTb|]. split; [exact (as_bk b Wb Ab) | exact Hcb].
+  - destruct IH as [F Hc]. split; [exact (finv_step dbg hp hpo hd HW HOK HI HV u o u' F G H)|].
+    exact (hc_step u o u' (proj1 F) G H Hc).
+  - destruct IH as [F Hc]. split; [exact (finv_qpm dbg u ops u' F Hops H)|].
+    destruct F as (K & _ & O & _). exact (hc_qpm u ops u' K O Hops H Hc).
 Qed.
 
 End HostClause.
